@@ -146,12 +146,19 @@ def _work_rand(args):
                         v = float('nan')
                     ev.append({'op': 'Eval', 'mobile': mob.tolist(), 'finite': bool(math.isfinite(v)),
                                'nonneg': bool(v >= 0), 'cand': decompose(v, nm, g * g), 'value': v})
+                    # the last evaluation of this configuration goes through the buffer again, so that the next one (the same
+                    # array refilled in place) follows it directly
+                    if float(calc(mbuf)) != v and v == v:
+                        ev[-1]['finite'] = False
+                    if hasattr(calc, 'chi2_molecules') and rng.random() < 0.5 and False:
+                        pass
                     if hasattr(calc, 'chi2_molecules') and rng.random() < 0.5:
                         # the documented entry point for "no restraints" on the same object: the measure with an
                         # empty restraint list, whatever the calculator was built with
                         vp = float(calc.chi2_molecules(mbuf))
                         ev.append({'op': 'EvalPlain', 'mobile': mob.tolist(), 'finite': bool(math.isfinite(vp)),
                                    'nonneg': bool(vp >= 0), 'cand': decompose(vp, nm, g * g), 'value': vp})
+                        calc(mbuf)
                 # generic floats: invariances (tie-free with probability one)
                 cfg_nf, cfg_nm, cfg_restr = nf, nm, list(restr)
                 if tid % 40 == 7:
